@@ -5,4 +5,6 @@ cd "$(dirname "$0")"
 export CARGO_NET_OFFLINE=true
 mkdir -p work evidence
 ( cd engine && cargo build --release --offline )
+# pre-build the dependency sets of the generated client crates (syn, unimock, mockall, async-trait)
+VERIF_ROOT="$(pwd)" engine/target/release/engine warm
 echo "setup done"
